@@ -1,0 +1,21 @@
+//go:build verif
+
+package trial
+
+import (
+	"k8s.io/apimachinery/pkg/runtime"
+	"k8s.io/client-go/tools/record"
+	"sigs.k8s.io/controller-runtime/pkg/client"
+
+	"github.com/kubeflow/katib/pkg/controller.v1beta1/trial/managerclient"
+	trialutil "github.com/kubeflow/katib/pkg/controller.v1beta1/trial/util"
+)
+
+func NewVerifReconciler(c client.Client, scheme *runtime.Scheme, rec record.EventRecorder, mc managerclient.ManagerClient, coll *trialutil.TrialsCollector) *ReconcileTrial {
+	r := &ReconcileTrial{Client: c, scheme: scheme, recorder: rec, ManagerClient: mc, collector: coll}
+	r.updateStatusHandler = r.updateStatus
+	return r
+}
+
+// VerifGetMetrics exposes getMetrics.
+var VerifGetMetrics = getMetrics
